@@ -2,6 +2,7 @@
 import itertools
 import os
 import random
+import zipfile
 import re
 from fractions import Fraction
 
@@ -232,6 +233,27 @@ def run_render(res, rng, w, home, specs, sizes, via):
             if parsed is None:
                 ok_all = False
                 continue
+            if via == "fsize" and size <= 4 << 20:
+                # a zip member of the same size is rendered like the file
+                zd = os.path.join(w, "zsz%d" % size)
+                if not os.path.isdir(zd):
+                    os.mkdir(zd)
+                    with zipfile.ZipFile(os.path.join(zd, "p.zip"), "w", zipfile.ZIP_DEFLATED) as z:
+                        z.writestr("m", b"\0" * size)
+                qz = "path, fsize from zsz%d archives into list" % size
+                rz = runner.run([qz], cwd=w, home=h)
+                res.ev()
+                if rz.verdict == "ok":
+                    try:
+                        mem = [c for pth, c in rz.rows(2) if pth.startswith("[")] if rz.rc == 0 and not rz.err else None
+                    except ValueError:
+                        mem = None
+                    if mem != [rows[0]]:
+                        res.viol("fsize of a zip member of %d bytes under format %r: %s, the file of that size shows %r" % (size, st, mem, rows[0]),
+                                 {"query": qz, "spec": st, "size": size, "result": rz.brief()})
+                        ok_all = False
+                        continue
+                    res.count("member_fsize_compared")
             rank, value, ndec, shown = parsed
             # monotone: (unit rank, number) never decreases as the size grows
             if last is not None and (rank, value) < (last[0], last[1]):
